@@ -2,10 +2,22 @@
 
 package bot
 
-// Verification hooks: access to the unexported login digest functions. Add-only; absent without the tag.
+import (
+	"github.com/Tnze/go-mc/net"
+	pk "github.com/Tnze/go-mc/net/packet"
+)
+
+// Verification hooks: access to the unexported login digest functions and to the client side of the
+// encryption handshake. Add-only; absent without the tag.
 
 func AuthDigestVerif(serverID string, sharedSecret, publicKey []byte) string {
 	return authDigest(serverID, sharedSecret, publicKey)
 }
 
 func TwosComplementVerif(p []byte) []byte { return twosComplement(p) }
+
+// HandleEncryptionRequestVerif runs the client's answer to an encryption request packet: the join request to
+// the session server (through http.DefaultClient) and the encryption response written to conn.
+func HandleEncryptionRequestVerif(conn *net.Conn, c *Client, p pk.Packet) error {
+	return handleEncryptionRequest(conn, c, p)
+}
